@@ -1,1 +1,3 @@
-import EudoxiaModel.Model.Exec
+import EudoxiaModel.Props.C01
+import EudoxiaModel.Props.C02
+import EudoxiaModel.Model.Obs
